@@ -79,6 +79,7 @@ def go_env():
     env.update({"GOFLAGS": "-mod=mod", "GOPROXY": "off", "GOMODCACHE": "/root/go/pkg/mod",
                 "GOCACHE": os.environ.get("GOCACHE", "/root/.cache/go-build"),
                 "CGO_ENABLED": env.get("CGO_ENABLED", "1")})
+    env["VERIF_REPO"] = REPO
     env.pop("GOTOOLCHAIN", None)
     env.pop("GOSUMDB", None)
     return env
